@@ -73,6 +73,7 @@ fn main() {
     let mut out_open = true;
     // `linger <ms>`: this session takes that long to close after it has seen end-of-file
     let mut linger: u64 = 0;
+    let mut seen: std::collections::HashMap<String, u64> = std::collections::HashMap::new();
     let stream = serde_json::Deserializer::from_reader(stdin.lock()).into_iter::<serde_json::Value>();
     for v in stream {
         let v = match v {
@@ -111,6 +112,18 @@ fn main() {
             let n: usize = n.split_whitespace().next().and_then(|s| s.parse().ok()).unwrap_or(0);
             let rows: Vec<Vec<String>> = (0..n).rev().map(|i| vec![format!("r{}", i)]).collect();
             serde_json::json!({ "result": rows })
+        } else if let Some(rest) = sql.strip_prefix("flaky ") {
+            // `flaky <k> <refuse|boom> ...`: the first k requests with this very text fail
+            let mut it = rest.split_whitespace();
+            let k: u64 = it.next().and_then(|s| s.parse().ok()).unwrap_or(0);
+            let text = if it.next() == Some("refuse") { "Connection refused" } else { "boom" };
+            let c = seen.entry(full.clone()).or_insert(0u64);
+            *c += 1;
+            if *c <= k {
+                serde_json::json!({ "err": text })
+            } else {
+                serde_json::json!({ "result": [] })
+            }
         } else if sql.starts_with("blankrow") {
             // two rows of one column; the second value is a single blank
             serde_json::json!({ "result": [["v"], [" "]] })
